@@ -18,28 +18,28 @@ CHECKS = {
             "Lean 4 theorems + model/code correspondence (differential, exhaustive small scope)", "7 C17"),
 }
 
-CHECKS["C16"] = ("Proof: C16.files_as_concatenation — files ending with a line feed are numbered as their joined text (readlines of a concatenation under universal newlines); the model of NumberLineCli (processLine fold with one counter over all files) equals the property's "
+CHECKS["C16"] = ("Proof: C16.leading_number_is_the_number_at_start — the specification reads 'begins with a number' through its own numberAtStart (digit run, no leading zero, valued from the last digit), proved equal to the tool's regular-expression reading; C16.files_as_concatenation — files ending with a line feed are numbered as their joined text (readlines of a concatenation under universal newlines); the model of NumberLineCli (processLine fold with one counter over all files) equals the property's "
                  "numbering rule for every text, start, increment, width (run_eq_spec); length, verbatim, padding and idempotence "
                  "(any second configuration, positive start/increment) theorems. Tie: differential CLI runs (files, stdin, "
                  "CR/LF mixes), exhaustive over all 3-line (quick) / 4-line (thorough) texts on 6 line shapes.",
                  "Lean 4 theorems + model/code correspondence (differential, exhaustive small scope)", "7 C16")
-CHECKS["C15"] = ("Proof: listing->ASCII BASIC shape and 7-bit; ASCII BASIC->listing equals the non-empty-lines specification for "
+CHECKS["C15"] = ("Proof: C15.cli_roundtrip — file to file through the run() of both converters (Model/ConvCli): moto_lst2bas name.lst,a writes exactly name.bas, moto_bas2lst name.bas,a [--dos] on it writes exactly name.lst = the non-blank normalised lines; cli_sources_in_order; listing->ASCII BASIC shape and 7-bit; ASCII BASIC->listing equals the non-empty-lines specification for "
                  "every byte file and both endings (loop invariant), never an empty line; round trip = normalised non-blank "
                  "lines (uses universal-newline and rstrip lemmas over the generated whitespace table). Tie: differential CLI "
                  "runs of moto_lst2bas/moto_bas2lst incl. non-ASCII and odd whitespace, exhaustive over {CR,LF,A,blank}^<=6/9.",
                  "Lean 4 theorems + model/code correspondence (differential, exhaustive small scope)", "7 C15")
 
 T = "Lean 4 theorems + model/code correspondence (differential CLI runs) + format oracle"
-CHECKS["C01"] = ("Proof: C01.roundtrip_beside_archive — without --into the only path condition is that no member is named like the archive (lexical path normalisation, Proofs/PathNorm.lean); C01.roundtrip_directory — distinct catalog names: after create + extract each source's content is under its name in the destination; C01.roundtrip — for every list of readable sources with ordinary 8.3 names that fits, and any contents, the "
+CHECKS["C01"] = ("Proof: C01.catalog_name_is_8_3 — the name a source is filed under is, for every argument string, NAME.EXT of the naming rule Spec.Names.tapeSource (last path component, last dot, upper case, 8 + 3; written with reverse/takeWhile, the code with rfind); C01.roundtrip_beside_archive — without --into the only path condition is that no member is named like the archive (lexical path normalisation, Proofs/PathNorm.lean); C01.roundtrip_directory — distinct catalog names: after create + extract each source's content is under its name in the destination; C01.roundtrip — for every list of readable sources with ordinary 8.3 names that fits, and any contents, the "
                  "model's create writes an archive from which the model's extract writes every file byte for byte under its "
                  "upper-cased name beside the archive / under --into, and list names exactly those files in order (composition of the "
                  "writer invariant, the reader theorem on rendered tapes and the whole-file reader lemma). Tie: create/list/extract of "
                  "the real tool vs the compiled model (status, stdout, archive bytes, files), all single lengths swept.", T, "7 C01")
-CHECKS["C03"] = ("Proof: C03.created_tape_is_k7 — whenever create writes, the archive equals the format description's encoding "
+CHECKS["C03"] = ("Proof: C03.source_naming_rule — for every argument string the leader's name, extension, kind, mode and the file read are those of Spec.Names.tapeSource (kind/mode by Spec.K7.kindMode); C03.created_tape_is_k7 — whenever create writes, the archive equals the format description's encoding "
                  "(Spec.K7.tape: 16x01 3C 5A frames back to back + zero padding, 21504 bytes); frame length/checksum laws, chunk "
                  "bounds and concatenation, 8/3 field widths for every name length, kind/mode table; generated constants = format "
                  "constants. Tie + oracle: real archives vs model, vs Spec.K7.tape, and through an independent strict Python decoder.", T, "7 C03")
-CHECKS["C08"] = ("Proof: C08.read_blocks(_padded) — on every tape emitted by the independent writer (leaders >= 3, idle gaps without 3C, "
+CHECKS["C08"] = ("Proof: C08.third_party_tape_any_idle_read_exactly / read_blocks_any_idle — the weakest reading of 'idle gaps': the stretches before, between and after the blocks may hold any bytes (3C included) except the five-byte start-of-block pattern; C08.read_blocks(_padded) — on every tape emitted by the independent writer (leaders >= 3, idle gaps without 3C, "
                  "payloads 0..254 of any content, any length) the model reader returns exactly the written blocks; "
                  "third_party_tape_read_exactly — such a tape carrying, per file, a leader, any number of data blocks of any sizes and an end block "
                  "is extracted as exactly those files (names, order, content = concatenation of the data blocks) and listed under the same names; "
@@ -51,7 +51,7 @@ CHECKS["C09"] = ("Proof: C09.all_or_nothing — for every world and every source
                  "single-file lengths across the frontier, missing sources at every index, pre-existing target.", T, "7 C09")
 
 D = "Lean 4 theorems (first layer) + model/code correspondence (differential, real tools vs compiled model) + independent-decoder oracle"
-CHECKS["C02"] = ("Proof: C02.create_stores_sources_in_order — every created image holds, side by side and in catalog order, exactly the sources placed there in command-line order (a sub-sequence of the command line, sides never decreasing); listing_and_extraction_follow_catalog_order; add_appends_sources_in_order; C02.create_then_extract_beside_archive — without --into the round trip needs no path hypothesis (members go two levels below the archive's directory); C02.small_batch_in_order — a batch that fits on side 0 is stored entry by entry in the order given and extracted as side0/NAME.EXT in that order with its data (the entry taken is the first that is not live); C02.generated_layout (sizes at the top of writeFile, translated); C02.create_then_extract — for every list of sources with ordinary catalog names (any contents, sizes 0 .. beyond a side, "
+CHECKS["C02"] = ("Proof: C02.source_naming_rule / plain_source_is_listed_as_name_dot_ext — for every argument string splitSource = the naming rule Spec.Names.diskSource, and for plain 8.3 names the printed / extracted name is STEM.EXT; C02.create_stores_sources_in_order — every created image holds, side by side and in catalog order, exactly the sources placed there in command-line order (a sub-sequence of the command line, sides never decreasing); listing_and_extraction_follow_catalog_order; add_appends_sources_in_order; C02.create_then_extract_beside_archive — without --into the round trip needs no path hypothesis (members go two levels below the archive's directory); C02.small_batch_in_order — a batch that fits on side 0 is stored entry by entry in the order given and extracted as side0/NAME.EXT in that order with its data (the entry taken is the first that is not live); C02.generated_layout (sizes at the top of writeFile, translated); C02.create_then_extract — for every list of sources with ordinary catalog names (any contents, sizes 0 .. beyond a side, "
                  "end-of-side markers, missing files, refusals) --create returns 0 and writes the archive of a consistent image; --extract of that "
                  "archive (either verbosity, with or without --into) returns 0 and writes exactly the files of the image as target/sideN/NAME.EXT in "
                  "catalog order; every file of the image is the exact data of one of the sources under the entry written for it. Built on "
@@ -108,7 +108,7 @@ CHECKS["C11"] = ("Proof: C11.load_save_sd / repad_id — a four-sided .sd loaded
                  "identity for 1/2/4-sided .fd; save then load is the identity for four well-formed sides in both flavours, so both flavours load "
                  "back the same disk. Tie/oracle: same sources through both tools, no-op adds over tool-made / independent / bundled "
                  "images, DiskSector.dataOfPayload for every length 0..600 (exhaustive).", D, "7 C11")
-CHECKS["C12"] = ("Proof: C12.announcements_in_order — the files a create/add report announces as stored are, in order, a sub-sequence of the source arguments (name, kind, size, blocks): none twice, none out of order, for every image and source list; C12.tape_reports_agree — tape create, list and extract print the same text (names, sizes, block counts, leader positions), either verbosity; C12.disk_list_report / disk_extract_report — for every image of four consistent sides with ordinary names, --list and "
+CHECKS["C12"] = ("Proof: C12.disk_announced_sizes_and_blocks_are_the_listed_ones — whole batch: every announcement of a create/add report has on its side a live entry in a formerly empty slot whose listing event carries the announced bytes and blocks = length of its chain; C12.announcements_in_order — the files a create/add report announces as stored are, in order, a sub-sequence of the source arguments (name, kind, size, blocks): none twice, none out of order, for every image and source list; C12.tape_reports_agree — tape create, list and extract print the same text (names, sizes, block counts, leader positions), either verbosity; C12.disk_list_report / disk_extract_report — for every image of four consistent sides with ordinary names, --list and "
                  "--extract (quiet and verbose) print exactly Disk.readReport, a stateless text: per side the separator, 'Side k', one line per live "
                  "entry in catalog order under its catalog name (verbose: kind, byte size, block count), the closing line of the side (file count or "
                  "'empty', plural, blocks, percentage), then '---', 'TOTAL' and the totals for an extraction; report_lines_are_the_files — one line "
@@ -120,7 +120,7 @@ CHECKS["C12"] = ("Proof: C12.announcements_in_order — the files a create/add r
                  "number of files the written image gained on that side (the events of a batch are proved well-bracketed: Disk.Trace); "
                  "tape create/list lines carry the true size, data-block count and leader ordinal; plural rule, counter steps. Tie/oracle: reports of "
                  "create/add/list/extract x quiet/verbose parsed into facts and compared with the independent decoding of the archive.", D, "7 C12")
-CHECKS["C13"] = ("Proof: C13.delimited_line — for EVERY line text of the property's domain (every word outside string literals, i.e. every maximal "
+CHECKS["C13"] = ("Proof: C13.convert_is_a_valid_program / typed_listing_is_a_valid_program — the whole file passes the independent structural validator Spec.BasicRef.parseProgram (FF, true length, one record per line in order with true link pointers from the program base, final zero link) for every accepted listing without NUL whose image ends below address 65536; cli_writes_the_program_beside_the_listing (Model/ConvCli: the run() of moto_lst2bas); generated_uint_encoders (toUint8/16, bytesFromUint translated from the AST on every run); C13.delimited_line — for EVERY line text of the property's domain (every word outside string literals, i.e. every maximal "
                  "run of characters other than . , ( ) : blank, the one-character operator tokens and the double quote, is exactly a keyword or "
                  "contains no keyword) the tokenizer stores exactly what the reference encoder Spec.BasicRef.encodeRef stores: tokens for "
                  "keywords (ELSE after a colon), other words upper-cased, operators as tokens, literals verbatim; no bound on length, number of "
@@ -132,7 +132,7 @@ CHECKS["C13"] = ("Proof: C13.delimited_line — for EVERY line text of the prope
                  "exposed defect F17 (keyword behind a pending operator before a literal / end of line), repaired. Tie/oracle: vocabulary "
                  "listings (every keyword x 12 contexts incl. a pending operator) and random lines through real moto_lst2bas vs model, Lean "
                  "structure decoder, Lean reference encoder.", D, "7 C13")
-CHECKS["C14"] = ("Proof: C14.lossless — for every ASCII line body, detokenizing (Spec.BasicRef.decode) the bytes the tokenizer model emits gives "
+CHECKS["C14"] = ("Proof: C14.typed_listing_roundtrip / program_roundtrip — program level: for every listing of lines 'N text' (N in 1..65535, ASCII without NUL/CR/LF, final LF or not) the converter accepts it and, below 64 KB, the independent parser + detokenizer give back exactly the numbers and the texts upper-cased outside literals, in order; C14.lossless — for every ASCII line body, detokenizing (Spec.BasicRef.decode) the bytes the tokenizer model emits gives "
                  "the text upper-cased outside string literals (C17's automaton): invariant over the four branches of appendAsToken incl. the "
                  "repaired early-match branch, closure of decode over segments, whole-table shape lemma by kernel evaluation. Tie/oracle: "
                  "printable listings, keyword pairs, all strings <= 4/5 over 9 symbols through the real tool vs model, decoded by the Lean "
@@ -155,7 +155,7 @@ CHECKS["C19"] = ("Proof (PARTIAL by nature): over the regenerated CLI descriptio
                  "real run() (status 2 exactly when the model says so, nothing created) on all argument lists of length <= 2 over a 50-string alphabet "
                  "per tool and thousands of random and mostly-valid longer ones. Interpreter start-up stays outside the model: the configuration "
                  "space of the property is also enumerated at process level with tree diffs. Known finding K1 (create --into) is reported, not hidden.", D, "7 C19")
-CHECKS["C20"] = ("Proof: tape create is a function of the sources' contents only (mode, archive name, rest of the file system irrelevant); "
+CHECKS["C20"] = ("Proof: C20.tape_create_alters_no_source / disk_update_alters_no_source — every path a writing action writes is the archive and no source designates the archive's place; tape create is a function of the sources' contents only (mode, archive name, rest of the file system irrelevant); "
                  "list writes nothing, extract only under the destination; C20.performCore_pure — two disk batches on the same image whose sources agree "
                  "position by position on catalog name, extensions, option and content give the same image or the same failure, whatever the "
                  "verbosity, archive name and path spelling; same_source_of_spelling / tape_specFile_spelling — the directory part of a source "
